@@ -257,7 +257,21 @@ func (s Session) coq() string {
 		items = append(items, lib.Tuple(ci, coqSnap(o)))
 		last = o
 	}
-	return lib.Tuple(hxs(s.API), lib.List(destTab), lib.List(streamTab), lib.List(items))
+	// what json.Valid says about every command and every reply of the session
+	probes := []string{}
+	probe := func(b []byte) { probes = append(probes, lib.Tuple(hx(b), lib.Bool(json.Valid(b)))) }
+	for i, it := range s.Items {
+		o := s.Obs[i]
+		if it.Kind == "cmd" {
+			probe(it.Msg)
+			if o.HasReply && !(s.Mode == "direct" && o.IsErr) {
+				probe(o.Reply)
+			}
+		} else if o.Status == 200 {
+			probe(o.Body)
+		}
+	}
+	return lib.Tuple(hxs(s.API), lib.List(destTab), lib.List(streamTab), lib.List(items), lib.List(probes))
 }
 
 // ---------------------------------------------------------------- the property's own oracle
